@@ -5,18 +5,22 @@ TLC   : MC_DWT1_Ops (Impl = Ref for every one-level (mode, N, L), deviation regi
 S->C  : every enumerated configuration replayed into DWT1DForward / DWTForward with indicator taps
         (one level) and random integer taps (multi level, 2-D), exact integer comparison with the
         operator TLC printed for Ref; PyWavelets run on the same probes pins Ref to the oracle.
+        MC_Helpers (mypad / roll / mode_to_int / prep_filt_* / symm_pad_1d as total functions, proved equal to the
+        declarative extension maps, replayed into the real helpers; deviations are impl-drift diagnostics).
 C->S  : operators recorded from the real code for real wavelets / hypothesis-chosen sizes outside
         the bounded model are validated by the TLC trace specification Trace_DWT1.
 """
 import numpy as np
 
-from .. import dwtlib, dwtmodel, oracles, dwtchecks, stagetrace
+from .. import dwtlib, dwtmodel, oracles, dwtchecks, stagetrace, helperchecks
 from ..findings import Findings
 
 LEVEL = "model_checking"
 RULE = ("cases = (mode, N, L[, J]) configurations enumerated by TLC within the model bounds plus recorded "
         "executions for real wavelets; a case is non-trivial when the boundary extension is exercised "
-        "(N < 2L, odd N, N < L) or J > 1; distinct = distinct (api, mode, N/HxW, L, J) tuples")
+        "(N < 2L, odd N, N < L) or J > 1; distinct = distinct (api, mode, N/HxW, L, J) tuples; plus MC_Helpers states "
+        "replayed into the helper functions (non-trivial = pad longer than the axis, raising, out-of-range or "
+        "negative roll, make_even, every mode name / prep routine)")
 EXHAUSTIVE = False
 
 
@@ -35,6 +39,7 @@ def run(rep):
     stagetrace.validate_dwt1(rep, "C01", rep.tier, "DWT1DForward")
     stagetrace.validate_dwt2(rep, "C01", rep.tier, "DWTForward")
     dwtchecks.numeric_vs_pywt(rep, "C01", rep.tier)
+    helperchecks.helper_fidelity(rep, "C01", rep.tier)
     rep.assumptions += [
         "TLC bounds: see coverage.tlc_runs; beyond them only the recorded executions are checked",
         "PyWavelets (pywt.dwt with indicator taps) pins the Ref layer; disagreement = machinery failure",
